@@ -24,6 +24,11 @@ CHECKS["C01"] = dict(cat="exploration", technique="exhaustive enumeration of com
                   "cold trapping code, calls with live values, fp/long-double chains, register-pressure bodies, pointer-advancing loops) are enumerated completely; every program runs on its whole input grid through MIR_interp and MIR_gen code at -O0..-O3 and results, harness buffers and the external-call log must agree.",
              note="refinterp is used only to skip (program,input) pairs with behaviour MIR.md leaves unspecified and to mark 32-bit results; two known findings (KNOWN_FINDINGS.txt); members of the known non-terminating class are executed once per shard and otherwise skipped (counted in the evidence)",
              ref="§3 C01")
+CHECKS["C04"] = dict(cat="exploration", technique="exhaustive enumeration of program families (incl. callee x caller inlining features and branch-rewrite patterns) against an independent interpreter of the un-linked IR, with normal and zero inlining thresholds",
+             text="Every program of the C01 families plus the inlining family F9 (alloca kinds x return shapes x parameter/result types x leaf/calling/recursive callees x call/inline x loop x result-to-memory x own alloca x one/two sites x size padding around both thresholds) and the branch-rewrite family F10 "
+                  "is executed by refinterp on the un-linked module and by the interpreter and gen -O0..-O3 after MIR_link; the same is repeated with a library built with MIR_MAX_INSNS_FOR_INLINE=MIR_MAX_INSNS_FOR_CALL_INLINE=0.",
+             note="oracle = core/refinterp.c executing the IR as written (before MIR_load_module); unspecified behaviour skipped; one known finding shared with C01 (store lowering between overflow insn and branch)",
+             ref="§3 C04")
 NOT_YET = {}
 def main():
     props = [json.loads(l) for l in open(os.path.join(VERIF, "properties.jsonl"))]
